@@ -259,6 +259,7 @@ pub open spec fn alg2b_next_k(e: Seq<u8>) -> Seq<u8> {
 /// `round` = the number of the round about to be performed = number of rounds done so far; `e_last` = last byte of the
 /// E of the previous round.  Rounds 0..63 are unconditional; round `round` >= 64 is performed iff e_last > round - 32.
 /// (A byte is <= 255 = 287 - 32, so the process always ends before round 288: the second branch is never taken.)
+#[verifier::opaque]
 pub open spec fn alg2b_from(pw: Seq<u8>, udata: Seq<u8>, k: Seq<u8>, e_last: u8, round: int) -> Seq<u8>
     decreases 288 - round
 {
@@ -277,6 +278,20 @@ pub open spec fn alg2b_hash(pw: Seq<u8>, salt: Seq<u8>, udata: Seq<u8>) -> Seq<u
 }
 
 // ---- code-side helpers ----
+/// the two cases of alg2b_from as implications (the definition is opaque to keep the loop's SMT query small; no `requires`:
+/// if the code performs a round the standard does not, or stops where it does not, the hypothesis is simply unavailable)
+pub proof fn lemma_alg2b_step(pw: Seq<u8>, udata: Seq<u8>, k: Seq<u8>, e_last: u8, round: int)
+    ensures (!(round >= 64 && e_last as int <= round - 32) && round < 288) ==>
+                alg2b_from(pw, udata, k, e_last, round)
+                == alg2b_from(pw, udata, alg2b_next_k(alg2b_e(pw, k, udata)), alg2b_e(pw, k, udata).last(), round + 1)
+{
+    reveal(alg2b_from);
+}
+pub proof fn lemma_alg2b_stop(pw: Seq<u8>, udata: Seq<u8>, k: Seq<u8>, e_last: u8, round: int)
+    ensures (round >= 64 && e_last as int <= round - 32) ==> alg2b_from(pw, udata, k, e_last, round) == k
+{
+    reveal(alg2b_from);
+}
 pub open spec fn sum_bytes(s: Seq<u8>) -> int decreases s.len() {
     if s.len() == 0 { 0 } else { sum_bytes(s.drop_last()) + s.last() as int }
 }
